@@ -4,6 +4,7 @@ package drv
 
 import (
 	"bufio"
+	"bytes"
 	"crypto/sha256"
 	"encoding/hex"
 	"encoding/json"
@@ -11,6 +12,7 @@ import (
 	"fmt"
 	"math/rand"
 	"os"
+	"os/exec"
 	"sort"
 
 	"verifharness/internal/trace"
@@ -26,7 +28,8 @@ type Ctx struct {
 	Scripts string // path of a TLC-exported script file, if any
 	W       *trace.Writer
 
-	exec     func(c *Ctx, desc M) bool
+	execFn   func(c *Ctx, desc M) bool
+	iso      *isolated // non-nil: cases are executed in a worker process (a crash of the code under test becomes an event)
 	prefix   string
 	seen     map[string]struct{}
 	nontriv  int
@@ -38,11 +41,19 @@ type Ctx struct {
 
 // Case runs one case: writes the reset line, executes, counts.
 func (c *Ctx) Case(desc M) {
+	if c.iso != nil && c.iso.crashes >= maxCrashes {
+		return // the code under test keeps killing the worker: the verdict is certain, stop spending minutes per crash
+	}
 	c.evals++
 	id := fmt.Sprintf("%s-%d", c.prefix, c.evals)
 	desc = Norm(desc)
 	c.W.Reset(id, desc)
-	nontrivial := c.exec(c, desc)
+	var nontrivial bool
+	if c.iso != nil {
+		nontrivial = c.iso.run(c, desc)
+	} else {
+		nontrivial = c.execFn(c, desc)
+	}
 	if nontrivial {
 		b, _ := json.Marshal(desc)
 		h := sha256.Sum256(b)
@@ -80,6 +91,8 @@ func Main() {
 	stats := flag.String("stats", "", "stats output (json)")
 	scripts := flag.String("scripts", "", "TLC-exported scripts")
 	replay := flag.String("replay", "", "re-execute the cases (reset lines) of this ndjson file")
+	isolate := flag.Bool("isolate", false, "execute the cases in a worker process; if the code under test kills it, a crash event is recorded")
+	worker := flag.Bool("worker", false, "internal: worker process of -isolate")
 	flag.Parse()
 	d, ok := registry[*prop]
 	if !ok {
@@ -91,13 +104,21 @@ func Main() {
 		fmt.Fprintf(os.Stderr, "unknown driver %q; have %v\n", *prop, names)
 		os.Exit(2)
 	}
+	if *worker {
+		workerMain(d, *tier, *seed)
+		return
+	}
 	w, err := trace.Create(*out)
 	if err != nil {
 		fmt.Fprintln(os.Stderr, err)
 		os.Exit(2)
 	}
 	c := &Ctx{Tier: *tier, Seed: *seed, Rng: rand.New(rand.NewSource(*seed)), Scripts: *scripts, W: w,
-		exec: d.Execute, prefix: d.Name, seen: map[string]struct{}{}, Extra: M{}}
+		execFn: d.Execute, prefix: d.Name, seen: map[string]struct{}{}, Extra: M{}}
+	if *isolate {
+		c.iso = &isolated{args: []string{"-worker", "-prop", *prop, "-tier", *tier, "-seed", fmt.Sprint(*seed)}}
+		defer c.iso.stop()
+	}
 	if *replay != "" {
 		f, err := os.Open(*replay)
 		if err != nil {
@@ -125,6 +146,10 @@ func Main() {
 	if err := w.Close(); err != nil {
 		fmt.Fprintln(os.Stderr, err)
 		os.Exit(2)
+	}
+	if c.iso != nil {
+		c.Extra["worker_crashes"] = c.iso.crashes
+		c.iso.stop()
 	}
 	if *stats != "" {
 		st := M{"evaluations": c.evals, "distinct_nontrivial": c.nontriv, "samples": c.samples,
@@ -212,4 +237,105 @@ func Norm(desc M) M {
 		panic(err)
 	}
 	return m
+}
+
+// ---- isolated execution ------------------------------------------------------
+// The parent generates the cases and writes the trace; a worker process executes them on the
+// real code and streams its events back on fd 3. If the code under test kills the worker
+// (fatal error: stack overflow, concurrent map writes, unrecovered panic in a goroutine ...),
+// the parent records a "crash" event for the running case - an observation no spec accepts -
+// and carries on with a fresh worker.
+
+const maxCrashes = 12
+
+type isolated struct {
+	args    []string
+	cmd     *exec.Cmd
+	stdin   *bufio.Writer
+	stdinC  interface{ Close() error }
+	results *bufio.Reader
+	crashes int
+}
+
+func (i *isolated) start() error {
+	pr, pw, err := os.Pipe()
+	if err != nil {
+		return err
+	}
+	cmd := exec.Command(os.Args[0], i.args...)
+	cmd.Stdout, cmd.Stderr = os.Stderr, os.Stderr
+	cmd.ExtraFiles = []*os.File{pw}
+	in, err := cmd.StdinPipe()
+	if err != nil {
+		return err
+	}
+	if err := cmd.Start(); err != nil {
+		return err
+	}
+	pw.Close()
+	i.cmd, i.stdin, i.stdinC, i.results = cmd, bufio.NewWriter(in), in, bufio.NewReaderSize(pr, 1<<20)
+	return nil
+}
+
+func (i *isolated) stop() {
+	if i.cmd == nil {
+		return
+	}
+	i.stdinC.Close()
+	_ = i.cmd.Wait()
+	i.cmd = nil
+}
+
+func (i *isolated) run(c *Ctx, desc M) bool {
+	if i.cmd == nil {
+		if err := i.start(); err != nil {
+			fmt.Fprintln(os.Stderr, "isolate: cannot start worker:", err)
+			os.Exit(2)
+		}
+	}
+	b, _ := json.Marshal(desc)
+	i.stdin.Write(b)
+	i.stdin.WriteByte('\n')
+	i.stdin.Flush()
+	for {
+		line, err := i.results.ReadBytes('\n')
+		if err != nil {
+			// the worker died while executing this case
+			_ = i.cmd.Wait()
+			i.cmd = nil
+			i.crashes++
+			c.W.Event("crash", M{})
+			return true
+		}
+		line = bytes.TrimRight(line, "\n")
+		if bytes.HasPrefix(line, []byte("#done")) {
+			return bytes.HasSuffix(line, []byte("1"))
+		}
+		if len(line) > 0 {
+			c.W.Raw(line)
+		}
+	}
+}
+
+func workerMain(d *Driver, tier string, seed int64) {
+	res := os.NewFile(3, "results")
+	w := trace.NewTo(res)
+	c := &Ctx{Tier: tier, Seed: seed, Rng: rand.New(rand.NewSource(seed)), W: w, execFn: d.Execute, prefix: d.Name,
+		seen: map[string]struct{}{}, Extra: M{}}
+	sc := bufio.NewScanner(os.Stdin)
+	sc.Buffer(make([]byte, 1<<20), 1<<28)
+	for sc.Scan() {
+		var m M
+		if err := json.Unmarshal(sc.Bytes(), &m); err != nil {
+			fmt.Fprintln(os.Stderr, "worker: bad descriptor:", err)
+			os.Exit(2)
+		}
+		nt := d.Execute(c, m)
+		w.Flush()
+		if nt {
+			fmt.Fprintln(res, "#done 1")
+		} else {
+			fmt.Fprintln(res, "#done 0")
+		}
+	}
 }
